@@ -123,7 +123,12 @@ def encode_order(rng, cls):
     Returns (kwargs for rate, style).  Strictly increasing maps only, so the weak order is cls's."""
     n = len(cls)
     k = max(cls) + 1
-    style = rng.choice(["none?", "int", "int", "float", "mixed", "neg", "big", "bool?", "scores", "scores_f", "scores_neg", "frac"])
+    style = rng.choice(["none?", "int", "int", "float", "mixed", "neg", "big", "bool?", "scores", "scores_f", "scores_neg", "frac", "bigint"])
+    if style == "bigint":
+        base = rng.choice([2**53, 10**18, -(2**62), 2**64])
+        if rng.random() < 0.5:
+            return {"ranks": [base + c for c in cls]}, style
+        return {"scores": [base - c for c in cls]}, style
     if style == "none?":
         if cls == list(range(n)):
             return {}, "none"
@@ -213,9 +218,72 @@ def rate_campaign(sess, rng, count, kinds=KINDS, max_teams=8, max_players=8, sim
         eff_tau = kw.get("tau", mh.m.tau)
         shape = pick_shape(rng, max_teams, max_players)
         teams = build_teams(rng, mh, shape, beta, eff_tau > 0)
+        if rng.random() < 0.12:   # value-identical line-ups (different objects)
+            k = rng.randrange(len(teams))
+            for i in range(len(teams)):
+                if i != k and rng.random() < 0.6:
+                    teams[i] = [mh.m.rating(p.mu, p.sigma, rng.choice(NAMES)) for p in teams[k]]
+        if rng.random() < 0.1:
+            for t in teams:
+                for p in t:
+                    p.id = "feedfacefeedfacefeedfacefeedface"
         okw, _style = encode_order(rng, weak_order(rng, len(shape)))
         kw.update(okw)
         sess.rate(mh, teams, **kw)
+
+
+def extremes_campaign(sess, rng, count, kinds=KINDS, ops=("rate", "win", "draw", "rank")):
+    """C08: corners of the numeric domain - every team at +-20 beta or 0, sigma at 1e-4 / 1 / 10 beta (0 with tau > 0),
+    team sizes 1..16, 2..8 teams, beta over six orders of magnitude, kappa 1e-2..1e-8, tau 0 / tiny / beta, and the
+    outcomes in which the favourite wins, loses or draws."""
+    for _ in range(count):
+        kind = rng.choice(kinds)
+        beta = BETA0 * rng.choice([1e-3, 1e-2, 1.0, 1.0, 10.0, 1e3])
+        kappa = rng.choice([1e-2, 1e-4, 1e-8])
+        if kind in ("TMF", "TMP"):
+            kappa = min(kappa, 1e-2 * math.sqrt(2.0) * beta)
+        tau = rng.choice([0.0, 1e-9 * beta, beta / 50.0, beta])
+        g = rng.choice(["default", "default", "one", "big", "zero"])
+        sess.reset()
+        mh = sess.model(kind, gamma=g, mu=6 * beta, sigma=2 * beta, beta=beta, kappa=kappa, tau=tau, limit_sigma=rng.random() < 0.2)
+        n = rng.choice([2, 2, 3, 4, 8])
+        size = rng.choice([1, 2, 2, 4, 8, 16])
+        sizes = [size if rng.random() < 0.7 else rng.choice([1, 2, 3, 16]) for _i in range(n)]
+        teams = []
+        tot = []
+        for sz in sizes:
+            pat = rng.choice(["hi", "lo", "zero", "mixed", "hi", "lo"])
+            u = rng.choice([1.0, 1.0, 0.95, 0.8])
+            sgc = rng.choice([1e-4, 1e-4, 0.1, 1.0, 10.0, 0.0 if tau > 0 else 1e-4])
+            team = []
+            for _j in range(sz):
+                mu = {"hi": 20 * beta * u, "lo": -20 * beta * u, "zero": 0.0, "mixed": rng.choice([-20, 20, 0]) * beta}[pat]
+                sg = sgc * beta if rng.random() < 0.8 else pick_sigma(rng, beta, tau > 0)
+                team.append(mh.m.rating(mu, sg))
+            teams.append(team)
+            tot.append(sum(p.mu for p in team))
+        order = sorted(range(n), key=lambda i: -tot[i])
+        fav = [0] * n
+        for pos, i in enumerate(order):
+            fav[i] = pos
+        outcome = rng.choice(["favourite", "upset", "all_tied", "random"])
+        if outcome == "favourite":
+            ranks = fav
+        elif outcome == "upset":
+            ranks = [n - 1 - r for r in fav]
+        elif outcome == "all_tied":
+            ranks = [0] * n
+        else:
+            ranks = weak_order(rng, n)
+        for op in ops:
+            if op == "rate":
+                continue
+            sess.predict(op, mh, teams)
+        if "rate" in ops:
+            if rng.random() < 0.5:
+                sess.rate(mh, teams, ranks=ranks)
+            else:
+                sess.rate(mh, teams, scores=[-r for r in ranks])
 
 
 def predict_campaign(sess, rng, count, kinds=KINDS, max_teams=8, max_players=8):
@@ -236,6 +304,10 @@ def predict_campaign(sess, rng, count, kinds=KINDS, max_teams=8, max_players=8):
                     teams[i] = [mh.m.rating(p.mu, p.sigma) for p in teams[k]]
         if rng.random() < 0.3:
             pollute(sess, rng, kind, params, g, [[(p.mu, p.sigma) for p in t] for t in teams], ("win", "draw", "rank"))
+        if rng.random() < 0.15:
+            for t in teams:
+                for p in t:
+                    p.id = "feedfacefeedfacefeedfacefeedface"
         for op in ("win", "draw", "rank"):
             sess.predict(op, mh, teams)
 
@@ -245,8 +317,20 @@ def random_vals(rng, shape, beta, tau_pos=False):
     return [[(pick_mu(rng, beta), pick_sigma(rng, beta, tau_pos)) for _ in range(sz)] for sz in shape]
 
 
+DUP_IDS = [False]   # when set, every rating built by make_teams carries the same id (as deep copies do)
+
+
 def make_teams(mh, vals, rng=None, names=True):
     """Fresh rating objects holding the given values (names vary when rng is given)."""
+    teams = _make_teams(mh, vals, rng, names)
+    if DUP_IDS[0]:
+        for t in teams:
+            for p in t:
+                p.id = "0123456789abcdef0123456789abcdef"
+    return teams
+
+
+def _make_teams(mh, vals, rng=None, names=True):
     teams = []
     for tv in vals:
         team = []
@@ -283,6 +367,11 @@ def all_encodings(rng, cls):
     encs.append({"ranks": [(c + 1) * 1e15 for c in cls]})
     encs.append({"ranks": [(c + 1) * 10**12 for c in cls]})
     encs.append({"ranks": [9007199254740992.0 + 2.0 * c for c in cls]})
+    encs.append({"ranks": [2**53 + c for c in cls]})               # distinct ints that are not distinct doubles
+    encs.append({"ranks": [10**18 + c for c in cls]})
+    encs.append({"ranks": [-(2**60) + c for c in cls]})
+    encs.append({"scores": [2**53 + 2 * k - c for c in cls]})
+    encs.append({"scores": [10**20 - c for c in cls]})
     encs.append({"scores": [k - c for c in cls]})
     encs.append({"scores": [-float(c) for c in cls]})
     encs.append({"scores": [(-c if i % 2 else -float(c)) for i, c in enumerate(cls)]})
@@ -346,12 +435,26 @@ def perm_groups(sess, rng, count, prop, ops=("rate",), kinds=KINDS, max_teams=6,
             tps = [list(p) for p in itertools.permutations(range(1, n + 1))]
         else:
             tps = [random_perm(rng, n) for _ in range(per_group)]
+        DUP_IDS[0] = rng.random() < 0.2     # ids are not inputs: equal ids (as deep copies have) must change nothing
         for op in ops:
             gid = GID.new(prop)
+            # "live" variant for predictions: the same objects throughout - predicted once with other values, changed in
+            # place (public attributes), predicted again, then listed in other orders.  Anything remembered per object
+            # or per id from the first prediction must not matter.
+            live = op != "rate" and rng.random() < 0.35
+            objs = None
+            if live:
+                warm = [[(mu + rng.choice([-1.0, 0.5, 2.0]) * beta, sg * rng.choice([0.5, 1.0, 2.0])) for (mu, sg) in tv] for tv in vals]
+                warm = [[(max(min(mu, 20 * beta), -20 * beta), min(max(sg, 1e-4 * beta), 10 * beta)) for (mu, sg) in tv] for tv in warm]
+                objs = make_teams(mh, warm)
+                sess.predict(op, mh, objs)
+                for tv, to in zip(vals, objs):
+                    for (mu, sg), o in zip(tv, to):
+                        sess.assign(o, mu, sg)
             if op == "rate":
                 sess.rate(mh, make_teams(mh, vals), group=gid, role="base", **okw)
             else:
-                sess.predict(op, mh, make_teams(mh, vals), group=gid, role="base")
+                sess.predict(op, mh, objs if live else make_teams(mh, vals), group=gid, role="base")
             for tp in tps:
                 mps = [random_perm(rng, shape[tp[k] - 1]) if rng.random() < 0.7 else list(range(1, shape[tp[k] - 1] + 1)) for k in range(n)]
                 pv = [[vals[tp[k] - 1][mps[k][l] - 1] for l in range(len(mps[k]))] for k in range(n)]
@@ -363,8 +466,12 @@ def perm_groups(sess, rng, count, prop, ops=("rate",), kinds=KINDS, max_teams=6,
                     else:
                         kw["ranks"] = [tp[k] - 1 for k in range(n)]
                     sess.rate(mh, make_teams(mh, pv), group=gid, role="perm", aux=aux, **kw)
+                elif live:
+                    po = [[objs[tp[k] - 1][mps[k][l] - 1] for l in range(len(mps[k]))] for k in range(n)]
+                    sess.predict(op, mh, po, group=gid, role="perm", aux=aux)
                 else:
                     sess.predict(op, mh, make_teams(mh, pv), group=gid, role="perm", aux=aux)
+        DUP_IDS[0] = False
 
 
 def effopts_groups(sess, rng, count, kinds=KINDS):
@@ -532,6 +639,7 @@ def predict_relations(sess, rng, count, kinds=KINDS):
         shape = pick_shape(rng, 8, 4)
         n = len(shape)
         vals = random_vals(rng, shape, beta)
+        DUP_IDS[0] = rng.random() < 0.2
         if rng.random() < 0.5:
             pollute(sess, rng, kind, params, g, vals, ("win", "draw", "rank"))
         # C09: raise one member's mu by a ladder of steps
@@ -584,6 +692,7 @@ def predict_relations(sess, rng, count, kinds=KINDS):
                 sess.predict("draw", mh, make_teams(mh, prev), group=gid, role="base")
                 sess.predict("draw", mh, teams, group=gid, role="gap")
             prev = v2
+        DUP_IDS[0] = False
 
 
 def model_groups(sess, rng, count):
